@@ -1060,6 +1060,19 @@ func (e *Exec) modelValues(ts []*Term) map[string]string {
 	return res
 }
 
+func (e *Exec) unblocked(fn *ssa.Function) bool {
+	if fn.Pkg == nil {
+		return false
+	}
+	p := fn.Pkg.Pkg.Path()
+	for _, u := range e.h.Unblock {
+		if strings.HasPrefix(p, u) {
+			return true
+		}
+	}
+	return false
+}
+
 // known reports whether c is syntactically implied / refuted by the path condition.
 func (e *Exec) known(c *Term) (val bool, ok bool) {
 	if e.pcSet[c.String()] {
@@ -1471,7 +1484,7 @@ func (e *Exec) callFunction(fn *ssa.Function, args []Value) Value {
 	if fn.Blocks == nil {
 		e.unsupported("call to function without body %s", fn.String())
 	}
-	if e.w.blocked(fn) {
+	if e.w.blocked(fn) && !e.unblocked(fn) {
 		e.unsupported("call into unmodelled package: %s", fn.String())
 	}
 	e.depth++
